@@ -233,7 +233,9 @@ func (db *PreparedStmtDB) QueryRowContext(ctx context.Context, query string, arg
 		simhook.Yield("queryrow:prepared")
 		return stmt.QueryRowContext(ctx, args...)
 	}
-	return &sql.Row{}
+	// a zero sql.Row panics in Scan: let the pool report the error (cancelled
+	// context, closed pool, invalid statement) or run the statement unprepared
+	return db.ConnPool.QueryRowContext(ctx, query, args...)
 }
 
 func (db *PreparedStmtDB) Ping() error {
@@ -307,7 +309,8 @@ func (tx *PreparedStmtTX) QueryRowContext(ctx context.Context, query string, arg
 		simhook.Yield("tx-queryrow:prepared")
 		return tx.Tx.StmtContext(ctx, stmt.Stmt).QueryRowContext(ctx, args...)
 	}
-	return &sql.Row{}
+	// a zero sql.Row panics in Scan: let the transaction report the error or run the statement unprepared
+	return tx.Tx.QueryRowContext(ctx, query, args...)
 }
 
 func (tx *PreparedStmtTX) Ping() error {
